@@ -31,8 +31,7 @@ DEFAULTS = dict(
     min_list_len=0,      # C05: 1 keeps empty list literals (type not ground) away
     p_head_perm=0.0,     # named head arguments listed in a drawn order (per rule / fact)
     p_if_composite=0.0,  # if-then-else whose branches are lists / records
-    allow_mba_head_perm=False,  # the reference evaluator groups multi-body aggregation by head
-                                # position; permuted bodies are covered by the fixed-finding repro only
+    allow_mba_head_perm=True,   # False restores the exclusion of the (fixed, 288b00f) mba finding
     p_in_lit_left=0.0,   # `literal in [..]` with repeated / variable elements
     p_spread_edb=0.0,    # fact table with pairwise different values in one Num column
     avoid_d11=True,      # known finding C01 D11 (see gen.cmp); False re-derives it
